@@ -559,6 +559,20 @@ func cmdCheck(args []string) int {
 	}
 	// fixed findings must not reappear: nothing to do (they are ordinary obligations)
 
+	// thorough tier: the property's own must-fail / must-pass corpus guards against vacuity holes
+	if *tier == "thorough" && *mut == "" && exit == 0 {
+		exe, _ := os.Executable()
+		cmd := exec.Command(exe, "selftest", "-p", id, "-verif", *verif)
+		b, err := cmd.CombinedOutput()
+		lines := strings.Split(strings.TrimSpace(string(b)), "\n")
+		thoroughSelftest = lines[len(lines)-1]
+		if err != nil {
+			fmt.Print(string(b))
+			fmt.Fprintln(os.Stderr, "engine error: selftest corpus of", id, "did not behave as expected")
+			return 2
+		}
+		fmt.Printf("%s (%d entries for %s)\n", thoroughSelftest, len(lines)-1, id)
+	}
 	wall := time.Since(t0).Seconds()
 	if len(sweepUndecided) > 0 && !*quiet {
 		fmt.Printf("safety sweep: %d instructions not shown safe (not claimed; listed in the evidence)\n", len(sweepUndecided))
